@@ -9,6 +9,8 @@ include!("../common/macros.rs");
 pub mod vk;
 #[path = "../common/model.rs"]
 pub mod model;
+#[path = "../common/flatserde.rs"]
+pub mod flat;
 pub mod spec_prims;
 pub mod spec;
 pub mod spec_steps;
@@ -19,6 +21,7 @@ pub(crate) use harnesses;
 pub mod h_lemmas;
 pub mod h_c03;
 pub mod h_decoders;
+pub mod h_serde;
 pub mod h_inputs;
 pub mod h_steps;
 pub mod h_derive;
@@ -27,7 +30,7 @@ pub mod h_wire;
 
 /// all harnesses reachable from this module (the child modules in opaque.rs / envelope.rs /
 /// tripledh.rs register theirs through `child_tables`)
-pub fn tables() -> [&'static [(&'static str, fn())]; 11] {
+pub fn tables() -> [&'static [(&'static str, fn())]; 12] {
     [
         h_lemmas::TABLE,
         h_derive::TABLE,
@@ -37,6 +40,7 @@ pub fn tables() -> [&'static [(&'static str, fn())]; 11] {
         h_inputs::TABLE,
         h_c03::TABLE,
         h_decoders::TABLE,
+        h_serde::TABLE,
         crate::opaque::verif_kani_opaque::TABLE,
         crate::envelope::verif_kani_envelope::TABLE,
         crate::key_exchange::tripledh::verif_kani_tripledh::TABLE,
